@@ -415,6 +415,9 @@ func cmdCheck(args []string) int {
 		var kept []*candidate
 		for _, c := range cands {
 			k := c.ob.Harness + "/" + c.ob.Label + "/" + c.kind
+			if c.ob.Ambient {
+				k += "#schedule-dependent"
+			}
 			perSite[k]++
 			if perSite[k] == 1 {
 				perSite[k] += unrefined[c.ob.Harness+"/"+c.ob.Label]
